@@ -169,7 +169,7 @@ class World:
         live = [p for p in self.pauses if not p.future.done()]
         self.pauses = live
         normal = [p for p in live if not p.low]
-        normal.sort(key=lambda p: (p.owner is not self.last_owner, p.seq))
+        normal.sort(key=lambda p: (p.owner is not self.last_owner, p.seq))  # seq: creation order (deterministic, see hv.boot)
         for p in normal:
             acts.append(Action("resume", p.tag, self._resumer(p)))
         if self.timers_enabled:
